@@ -61,6 +61,9 @@ func rngOnly(src *rand.PCGSource) bool { panic("spec only") }
 // wrapInt(x): x reduced to the two's-complement range of IntType (what Go's + - * do).
 func wrapInt(x IntType) IntType { return x }
 
+// sameFloat(a, b): identical float values (spec only; Go's == is not reflexive on NaN).
+func sameFloat(a, b float64) bool { panic("spec only") }
+
 // sharedBuiltin(p): p is one of the package's shared built-in values (entries of builtinValues / builtinProto).
 func sharedBuiltin(p any) bool { panic("spec only") }
 
@@ -864,6 +867,12 @@ func (*Context).evaluate
   ghost var stCalls int = 0
   ghost var cdCalls int = 0
   ghost at loop 3 begin: gtop = e.top; stCalls = 0; cdCalls = 0; gcb = e.Config.CallbackSt != nil
+  ghost var gopc IntType = 0
+  ghost at loop 3 begin: gopc = e.NumOpCount
+  ghost at precall 1 RollCommon: ghostAssert(e.NumOpCount == math.MaxInt64 || e.NumOpCount >= gopc + arg1)
+  ghost at precall 1 RollCoC: ghostAssert(e.NumOpCount == math.MaxInt64 || e.NumOpCount >= gopc + arg2)
+  ghost at precall 1 RollWoD: ghostAssert(e.NumOpCount == math.MaxInt64 || e.NumOpCount >= gopc + arg2)
+  ghost at precall 1 RollDoubleCross: ghostAssert(e.NumOpCount == math.MaxInt64 || e.NumOpCount >= gopc + arg2)
   ghost at loop 3 begin: if blockIndex >= 1 { gblk = blockStack[blockIndex-1] }; if fstrBlockIndex >= 1 { gfblk = fstrBlockStack[fstrBlockIndex-1] }
   ghost at precall 1 CallbackSt: stCalls = stCalls + 1; ghostAssert(arg0 == "set" && arg2 != nil && isFresh(arg2) && arg4 == "" && arg5 == "")
   ghost at precall 2 CallbackSt: stCalls = stCalls + 1; ghostAssert(arg0 == "mod" && arg2 != nil && isFresh(arg2) && arg4 == stInfo.Op && arg5 == stInfo.Text)
@@ -929,6 +938,9 @@ func cloneStrings
 func (*VMValue).OpAdd
   props C02 C01
   requires ctx != nil && v2 != nil
+  ensures [C02] v.TypeId == VMTypeInt && v2.TypeId == VMTypeFloat ==> sameFloat(result.Value.(float64), float64(old(v.Value.(IntType))) + old(v2.Value.(float64)))
+  ensures [C02] v.TypeId == VMTypeFloat && v2.TypeId == VMTypeInt ==> sameFloat(result.Value.(float64), old(v.Value.(float64)) + float64(old(v2.Value.(IntType))))
+  ensures [C02] v.TypeId == VMTypeFloat && v2.TypeId == VMTypeFloat ==> sameFloat(result.Value.(float64), old(v.Value.(float64)) + old(v2.Value.(float64)))
   ensures [C02] v.TypeId == VMTypeInt && v2.TypeId == VMTypeInt ==> result != nil && result.TypeId == VMTypeInt && result.Value.(IntType) == wrapInt(old(v.Value.(IntType)) + old(v2.Value.(IntType)))
   ensures [C02] (v.TypeId == VMTypeInt && v2.TypeId == VMTypeFloat) || (v.TypeId == VMTypeFloat && (v2.TypeId == VMTypeInt || v2.TypeId == VMTypeFloat)) ==> result != nil && result.TypeId == VMTypeFloat
   ensures [C02] v.TypeId == VMTypeString && v2.TypeId == VMTypeString ==> result != nil && result.TypeId == VMTypeString && result.Value.(string) == old(v.Value.(string)) + old(v2.Value.(string))
@@ -944,9 +956,33 @@ func (*VMValue).OpAdd
 func (*VMValue).OpSub
   props C02 C01
   requires v2 != nil
+  ensures [C02] v.TypeId == VMTypeInt && v2.TypeId == VMTypeFloat ==> sameFloat(result.Value.(float64), float64(old(v.Value.(IntType))) - old(v2.Value.(float64)))
+  ensures [C02] v.TypeId == VMTypeFloat && v2.TypeId == VMTypeInt ==> sameFloat(result.Value.(float64), old(v.Value.(float64)) - float64(old(v2.Value.(IntType))))
+  ensures [C02] v.TypeId == VMTypeFloat && v2.TypeId == VMTypeFloat ==> sameFloat(result.Value.(float64), old(v.Value.(float64)) - old(v2.Value.(float64)))
   ensures [C02] v.TypeId == VMTypeInt && v2.TypeId == VMTypeInt ==> result != nil && result.TypeId == VMTypeInt && result.Value.(IntType) == wrapInt(old(v.Value.(IntType)) - old(v2.Value.(IntType)))
   ensures [C02] (v.TypeId == VMTypeInt && v2.TypeId == VMTypeFloat) || (v.TypeId == VMTypeFloat && (v2.TypeId == VMTypeInt || v2.TypeId == VMTypeFloat)) ==> result != nil && result.TypeId == VMTypeFloat
   ensures [C02] !((v.TypeId == VMTypeInt || v.TypeId == VMTypeFloat) && (v2.TypeId == VMTypeInt || v2.TypeId == VMTypeFloat)) ==> result == nil
+
+func (*VMValue).ArrayRepeatTimesEx
+  props C02 C01
+  requires ctx != nil && times != nil && v.TypeId == VMTypeArray
+  ensures [C02] times.TypeId != VMTypeInt ==> result == nil && ctx.Error == old(ctx.Error)
+  ensures [C02] times.TypeId == VMTypeInt && (old(times.Value.(IntType)) < 0 || old(times.Value.(IntType)) > 512 || old(IntType(len(v.Value.(*ArrayData).List))) * old(times.Value.(IntType)) > 512) ==> result == nil && ctx.Error != nil
+  ensures [C02] times.TypeId == VMTypeInt && old(times.Value.(IntType)) >= 0 && old(times.Value.(IntType)) <= 512 && old(IntType(len(v.Value.(*ArrayData).List))) * old(times.Value.(IntType)) <= 512 ==> result != nil && result.TypeId == VMTypeArray && IntType(len(result.Value.(*ArrayData).List)) == old(IntType(len(v.Value.(*ArrayData).List))) * old(times.Value.(IntType)) && ctx.Error == old(ctx.Error)
+  loop 1
+    invariant 0 <= i && i <= length && IntType(len(arr)) == length && isFresh(arr) && (length > 0 ==> len(ad.List) > 0 && arr != nil)
+    invariant forall k in [0, int(i)): arr[k] != nil
+    decreases int(length - i)
+
+func (*VMValue).OpMultiply
+  props C02 C01
+  requires ctx != nil && v2 != nil
+  ensures [C02] v.TypeId == VMTypeInt && v2.TypeId == VMTypeInt ==> result != nil && result.TypeId == VMTypeInt && result.Value.(IntType) == wrapInt(old(v.Value.(IntType)) * old(v2.Value.(IntType)))
+  ensures [C02] v.TypeId == VMTypeInt && v2.TypeId == VMTypeFloat ==> result != nil && result.TypeId == VMTypeFloat && sameFloat(result.Value.(float64), float64(old(v.Value.(IntType))) * old(v2.Value.(float64)))
+  ensures [C02] v.TypeId == VMTypeFloat && v2.TypeId == VMTypeInt ==> result != nil && result.TypeId == VMTypeFloat && sameFloat(result.Value.(float64), old(v.Value.(float64)) * float64(old(v2.Value.(IntType))))
+  ensures [C02] v.TypeId == VMTypeFloat && v2.TypeId == VMTypeFloat ==> result != nil && result.TypeId == VMTypeFloat && sameFloat(result.Value.(float64), old(v.Value.(float64)) * old(v2.Value.(float64)))
+  ensures [C02] !((v.TypeId == VMTypeInt || v.TypeId == VMTypeFloat) && (v2.TypeId == VMTypeInt || v2.TypeId == VMTypeFloat)) && !(v.TypeId == VMTypeArray && v2.TypeId == VMTypeInt) && !(v.TypeId == VMTypeInt && v2.TypeId == VMTypeArray) ==> result == nil && ctx.Error == old(ctx.Error)
+  ensures [C02] !(v.TypeId == VMTypeArray || v2.TypeId == VMTypeArray) ==> ctx.Error == old(ctx.Error)
 
 func (*VMValue).OpDivide
   props C02 C01
@@ -969,27 +1005,74 @@ func (*VMValue).OpNullCoalescing
   ensures [C02] v.TypeId == VMTypeNull ==> result == v2
   ensures [C02] v.TypeId != VMTypeNull ==> result == v
 
+func ValueEqual
+  props C02 C01
+  ensures [C02] a == b ==> result
+  ensures [C02] a != b && (a == nil || b == nil) ==> !result
+  ensures [C02] a != nil && b != nil && a != b && a.TypeId == VMTypeInt && b.TypeId == VMTypeInt ==> (result <==> a.Value.(IntType) == b.Value.(IntType))
+  ensures [C02] a != nil && b != nil && a != b && a.TypeId == VMTypeString && b.TypeId == VMTypeString ==> (result <==> a.Value.(string) == b.Value.(string))
+  ensures [C02] a != nil && b != nil && a.TypeId == VMTypeInt && b.TypeId == VMTypeFloat ==> (result <==> autoConvert && float64(a.Value.(IntType)) == b.Value.(float64))
+  ensures [C02] a != nil && b != nil && a.TypeId == VMTypeFloat && b.TypeId == VMTypeInt ==> (result <==> autoConvert && a.Value.(float64) == float64(b.Value.(IntType)))
+  ensures [C02] a != nil && b != nil && a.TypeId != b.TypeId && !(a.TypeId == VMTypeInt && b.TypeId == VMTypeFloat) && !(a.TypeId == VMTypeFloat && b.TypeId == VMTypeInt) ==> !result
+
+func (*VMValue).AsBool
+  props C02 C01
+  ensures [C02] v.TypeId == VMTypeInt ==> (result <==> v.Value.(IntType) != 0)
+  ensures [C02] v.TypeId == VMTypeNull ==> !result
+  ensures [C02] v.TypeId == VMTypeString ==> (result <==> v.Value.(string) != "")
+  ensures [C02] v.TypeId == VMTypeArray ==> (result <==> len(v.Value.(*ArrayData).List) != 0)
+  ensures [C02] v.TypeId == VMTypeFunction || v.TypeId == VMTypeNativeFunction || v.TypeId == VMTypeNativeObject ==> result
+
+func (*VMValue).OpCompEQ
+  props C02 C01
+  requires v2 != nil
+  ensures [C02] result != nil && result.TypeId == VMTypeInt && (result.Value.(IntType) == 0 || result.Value.(IntType) == 1)
+  ensures [C02] v.TypeId == VMTypeInt && v2.TypeId == VMTypeInt ==> (result.Value.(IntType) == 1 <==> old(v.Value.(IntType)) == old(v2.Value.(IntType)))
+  ensures [C02] v.TypeId == VMTypeInt && v2.TypeId == VMTypeFloat ==> (result.Value.(IntType) == 1 <==> float64(old(v.Value.(IntType))) == old(v2.Value.(float64)))
+  ensures [C02] v.TypeId == VMTypeFloat && v2.TypeId == VMTypeInt ==> (result.Value.(IntType) == 1 <==> old(v.Value.(float64)) == float64(old(v2.Value.(IntType))))
+  ensures [C02] v.TypeId != v2.TypeId && !(v.TypeId == VMTypeInt && v2.TypeId == VMTypeFloat) && !(v.TypeId == VMTypeFloat && v2.TypeId == VMTypeInt) ==> result.Value.(IntType) == 0
+
+func (*VMValue).OpCompNE
+  props C02 C01
+  requires v2 != nil
+  ensures [C02] result != nil && result.TypeId == VMTypeInt && (result.Value.(IntType) == 0 || result.Value.(IntType) == 1)
+  ensures [C02] v.TypeId == VMTypeInt && v2.TypeId == VMTypeInt ==> (result.Value.(IntType) == 1 <==> old(v.Value.(IntType)) != old(v2.Value.(IntType)))
+  ensures [C02] v.TypeId == VMTypeInt && v2.TypeId == VMTypeFloat ==> (result.Value.(IntType) == 0 <==> float64(old(v.Value.(IntType))) == old(v2.Value.(float64)))
+  ensures [C02] v.TypeId != v2.TypeId && !(v.TypeId == VMTypeInt && v2.TypeId == VMTypeFloat) && !(v.TypeId == VMTypeFloat && v2.TypeId == VMTypeInt) ==> result.Value.(IntType) == 1
+
 func (*VMValue).OpCompLT
   props C02 C01
   requires v2 != nil
+  ensures [C02] v.TypeId == VMTypeInt && v2.TypeId == VMTypeFloat ==> result != nil && result.TypeId == VMTypeInt && (result.Value.(IntType) == 1 <==> float64(old(v.Value.(IntType))) < old(v2.Value.(float64))) && (result.Value.(IntType) == 0 || result.Value.(IntType) == 1)
+  ensures [C02] v.TypeId == VMTypeFloat && v2.TypeId == VMTypeInt ==> result != nil && result.TypeId == VMTypeInt && (result.Value.(IntType) == 1 <==> old(v.Value.(float64)) < float64(old(v2.Value.(IntType)))) && (result.Value.(IntType) == 0 || result.Value.(IntType) == 1)
+  ensures [C02] v.TypeId == VMTypeFloat && v2.TypeId == VMTypeFloat ==> result != nil && result.TypeId == VMTypeInt && (result.Value.(IntType) == 1 <==> old(v.Value.(float64)) < old(v2.Value.(float64))) && (result.Value.(IntType) == 0 || result.Value.(IntType) == 1)
   ensures [C02] v.TypeId == VMTypeInt && v2.TypeId == VMTypeInt ==> result != nil && result.TypeId == VMTypeInt && (result.Value.(IntType) == 1 <==> old(v.Value.(IntType)) < old(v2.Value.(IntType))) && (result.Value.(IntType) == 0 || result.Value.(IntType) == 1)
   ensures [C02] !((v.TypeId == VMTypeInt || v.TypeId == VMTypeFloat) && (v2.TypeId == VMTypeInt || v2.TypeId == VMTypeFloat)) ==> result == nil
 
 func (*VMValue).OpCompLE
   props C02 C01
   requires v2 != nil
+  ensures [C02] v.TypeId == VMTypeInt && v2.TypeId == VMTypeFloat ==> result != nil && result.TypeId == VMTypeInt && (result.Value.(IntType) == 1 <==> float64(old(v.Value.(IntType))) <= old(v2.Value.(float64))) && (result.Value.(IntType) == 0 || result.Value.(IntType) == 1)
+  ensures [C02] v.TypeId == VMTypeFloat && v2.TypeId == VMTypeInt ==> result != nil && result.TypeId == VMTypeInt && (result.Value.(IntType) == 1 <==> old(v.Value.(float64)) <= float64(old(v2.Value.(IntType)))) && (result.Value.(IntType) == 0 || result.Value.(IntType) == 1)
+  ensures [C02] v.TypeId == VMTypeFloat && v2.TypeId == VMTypeFloat ==> result != nil && result.TypeId == VMTypeInt && (result.Value.(IntType) == 1 <==> old(v.Value.(float64)) <= old(v2.Value.(float64))) && (result.Value.(IntType) == 0 || result.Value.(IntType) == 1)
   ensures [C02] v.TypeId == VMTypeInt && v2.TypeId == VMTypeInt ==> result != nil && result.TypeId == VMTypeInt && (result.Value.(IntType) == 1 <==> old(v.Value.(IntType)) <= old(v2.Value.(IntType))) && (result.Value.(IntType) == 0 || result.Value.(IntType) == 1)
   ensures [C02] !((v.TypeId == VMTypeInt || v.TypeId == VMTypeFloat) && (v2.TypeId == VMTypeInt || v2.TypeId == VMTypeFloat)) ==> result == nil
 
 func (*VMValue).OpCompGE
   props C02 C01
   requires v2 != nil
+  ensures [C02] v.TypeId == VMTypeInt && v2.TypeId == VMTypeFloat ==> result != nil && result.TypeId == VMTypeInt && (result.Value.(IntType) == 1 <==> float64(old(v.Value.(IntType))) >= old(v2.Value.(float64))) && (result.Value.(IntType) == 0 || result.Value.(IntType) == 1)
+  ensures [C02] v.TypeId == VMTypeFloat && v2.TypeId == VMTypeInt ==> result != nil && result.TypeId == VMTypeInt && (result.Value.(IntType) == 1 <==> old(v.Value.(float64)) >= float64(old(v2.Value.(IntType)))) && (result.Value.(IntType) == 0 || result.Value.(IntType) == 1)
+  ensures [C02] v.TypeId == VMTypeFloat && v2.TypeId == VMTypeFloat ==> result != nil && result.TypeId == VMTypeInt && (result.Value.(IntType) == 1 <==> old(v.Value.(float64)) >= old(v2.Value.(float64))) && (result.Value.(IntType) == 0 || result.Value.(IntType) == 1)
   ensures [C02] v.TypeId == VMTypeInt && v2.TypeId == VMTypeInt ==> result != nil && result.TypeId == VMTypeInt && (result.Value.(IntType) == 1 <==> old(v.Value.(IntType)) >= old(v2.Value.(IntType))) && (result.Value.(IntType) == 0 || result.Value.(IntType) == 1)
   ensures [C02] !((v.TypeId == VMTypeInt || v.TypeId == VMTypeFloat) && (v2.TypeId == VMTypeInt || v2.TypeId == VMTypeFloat)) ==> result == nil
 
 func (*VMValue).OpCompGT
   props C02 C01
   requires v2 != nil
+  ensures [C02] v.TypeId == VMTypeInt && v2.TypeId == VMTypeFloat ==> result != nil && result.TypeId == VMTypeInt && (result.Value.(IntType) == 1 <==> float64(old(v.Value.(IntType))) > old(v2.Value.(float64))) && (result.Value.(IntType) == 0 || result.Value.(IntType) == 1)
+  ensures [C02] v.TypeId == VMTypeFloat && v2.TypeId == VMTypeInt ==> result != nil && result.TypeId == VMTypeInt && (result.Value.(IntType) == 1 <==> old(v.Value.(float64)) > float64(old(v2.Value.(IntType)))) && (result.Value.(IntType) == 0 || result.Value.(IntType) == 1)
+  ensures [C02] v.TypeId == VMTypeFloat && v2.TypeId == VMTypeFloat ==> result != nil && result.TypeId == VMTypeInt && (result.Value.(IntType) == 1 <==> old(v.Value.(float64)) > old(v2.Value.(float64))) && (result.Value.(IntType) == 0 || result.Value.(IntType) == 1)
   ensures [C02] v.TypeId == VMTypeInt && v2.TypeId == VMTypeInt ==> result != nil && result.TypeId == VMTypeInt && (result.Value.(IntType) == 1 <==> old(v.Value.(IntType)) > old(v2.Value.(IntType))) && (result.Value.(IntType) == 0 || result.Value.(IntType) == 1)
   ensures [C02] !((v.TypeId == VMTypeInt || v.TypeId == VMTypeFloat) && (v2.TypeId == VMTypeInt || v2.TypeId == VMTypeFloat)) ==> result == nil
 
